@@ -375,7 +375,7 @@ def run_shard(ctx, spec):
                 ctx.note_case(("inj", rule, h))
             ctx.stats["injector_rules"] += 1
         # k = 2..3 random combinations (names are made unique per snippet)
-        for _ in range((20000 if ctx.tier == "quick" else 300000) // n):
+        for _ in range((20000 if ctx.tier == "quick" else 1200000) // n):
             k = rng.choice([2, 2, 3])
             chosen = rng.sample(inj, k)
             host = list(rng.choice(hosts))
@@ -431,7 +431,7 @@ def run_shard(ctx, spec):
 def plan(tier, seed):
     specs = [("injectors", i, 16) for i in range(16)]
     specs += [("files",), ("small", "members"), ("small", "keys"), ("small", "streams"), ("small", "key-structs"), ("small", "module-clash")]
-    n = 16000 if tier == "quick" else 200000
+    n = 16000 if tier == "quick" else 800000
     specs += [("accept", n // 16, i) for i in range(16)]
     return specs
 
